@@ -358,10 +358,12 @@ def N(e):
         return e
     if k == "agg" and e[1] in NEWTYPES and len(e[3]) == 1:
         return N(e[3][0])
+    if k == "local":
+        return e
     if k == "field":
-        if e[2] == "0":
+        if e[2] == "0" and len(e) == 3:
             return N(e[1])
-        return ("field", N(e[1]), e[2])
+        return ("field", N(e[1])) + tuple(e[2:])
     if k == "cast":
         if e[1] in ("IntToInt", "PointerCoercion", "PtrToPtr"):
             return N(e[2])
